@@ -7,6 +7,7 @@ import (
 	"fmt"
 	"os"
 	"os/exec"
+	"path/filepath"
 	"regexp"
 	"runtime"
 	"sort"
@@ -432,8 +433,22 @@ func Main(p *Prop, tier string) int {
 		return 2
 	}
 
+	// race complement pass: the binary was built with -race and its workers ran free (real goroutines);
+	// every reported data race that involves the code under test counts as a failing group
+	raceReportsSeen := -1
+	if dir := os.Getenv("VERIF_RACE_LOGS"); dir != "" {
+		reps := raceReports(dir)
+		raceReportsSeen = len(reps)
+		for _, r := range reps {
+			groups = append(groups, &group{Sig: "data race: " + r.sig, Atoms: []string{"race-pass"}, Count: 1, Example: map[string]interface{}{"race_report": r.text}, Job: "race"})
+		}
+	}
+
 	// aggregate
 	tot := summary{Extra: map[string]int{}}
+	if raceReportsSeen >= 0 {
+		tot.Extra["distinct-data-races-in-code-under-test"] = raceReportsSeen
+	}
 	capped := false
 	var samples []interface{}
 	tot.Cases, tot.NonTrivial = nCases, nNonTrivial
@@ -627,4 +642,52 @@ func triage(merged map[string]*group, fs *findings.Set, prop string) {
 			fmt.Printf("        e.g. %s\n", short(e))
 		}
 	}
+}
+
+type raceReport struct{ sig, text string }
+
+// raceReports parses the race detector's log files and keeps one report per distinct pair of
+// top frames inside the code under test.
+func raceReports(dir string) []raceReport {
+	files, _ := filepath.Glob(filepath.Join(dir, "*"))
+	seen := map[string]bool{}
+	var out []raceReport
+	for _, f := range files {
+		b, err := os.ReadFile(f)
+		if err != nil {
+			continue
+		}
+		for _, blk := range strings.Split(string(b), "==================") {
+			if !strings.Contains(blk, "WARNING: DATA RACE") {
+				continue
+			}
+			var frames []string
+			for _, ln := range strings.Split(blk, "\n") {
+				ln = strings.TrimSpace(ln)
+				if strings.HasPrefix(ln, repoDir()+"/") && !strings.Contains(ln, "/vrt/") {
+					if i := strings.Index(ln, " "); i > 0 {
+						ln = ln[:i]
+					}
+					frames = append(frames, strings.TrimPrefix(ln, repoDir()+"/"))
+				}
+			}
+			if len(frames) == 0 {
+				continue // a race inside the harness itself is not the code's
+			}
+			if len(frames) > 2 {
+				frames = frames[:2]
+			}
+			sig := strings.Join(frames, " <-> ")
+			if seen[sig] {
+				continue
+			}
+			seen[sig] = true
+			if len(blk) > 6000 {
+				blk = blk[:6000]
+			}
+			out = append(out, raceReport{sig, blk})
+		}
+	}
+	sort.Slice(out, func(i, j int) bool { return out[i].sig < out[j].sig })
+	return out
 }
